@@ -934,3 +934,69 @@ def success_edges(b):
             if x not in other and len(b.pred[x]) == 1:
                 out.append((org, x))
     return out
+
+
+def origin_local(F, b, o, depth=0):
+    """(body, local, projection) the operand's value comes from: through copies, borrows, named single-assignment aliases
+    and closure captures (resolved into the function that creates the closure).  None if o is a constant."""
+    p = op_place(o)
+    if p is None or depth > 6:
+        return None
+    rp = b.root_place(p, through_names=True)
+    pr = [e for e in rp["p"] if e != "*"]
+    if b.kind == "Closure" and rp["l"] == 1 and pr and isinstance(pr[0], dict) and "f" in pr[0]:
+        idx = pr[0]["f"]
+        par = b.path.rsplit("::{closure", 1)[0]
+        pb = F.bodies.get(par)
+        if pb is not None:
+            for bi, si, st in pb.stmts():
+                rv = st.get("rv")
+                if rv and rv["k"] == "agg" and rv["kind"].get("a") == "closure" and rv["kind"]["def"] == b.path and idx < len(rv["ops"]):
+                    r = origin_local(F, pb, rv["ops"][idx], depth + 1)
+                    if r is not None:
+                        return (r[0], r[1], r[2] + pr[1:])
+    # transparent views: deref / as_slice / as_ref / borrow of x denote x
+    d = b.single_def(rp["l"]) if rp["l"] not in b.names and rp["l"] > b.argc else None
+    if d is not None and d[2] == "call" and not pr:
+        short = (d[3]["f"].get("fn") or "").rsplit("::", 1)[-1]
+        if short in ("deref", "deref_mut", "as_slice", "as_mut_slice", "as_ref", "as_mut", "borrow", "borrow_mut", "as_bytes", "as_str") and len(d[3]["args"]) == 1:
+            return origin_local(F, b, d[3]["args"][0], depth + 1)
+    return (b, rp["l"], pr)
+
+
+def same_origin(F, b, o, body2, local2):
+    r = origin_local(F, b, o)
+    return r is not None and r[0] is body2 and r[1] == local2 and not r[2]
+
+
+def switch_on(b, g, local):
+    """does block g branch on (a copy of) local?"""
+    t = b.term(g)
+    if t["k"] != "switch":
+        return False
+    p = op_place(t["d"])
+    for _ in range(4):
+        if p is None or p["p"]:
+            return False
+        if p["l"] == local:
+            return True
+        d = b.single_def(p["l"])
+        if not (d and d[2] == "rv" and d[3]["k"] == "use"):
+            return False
+        p = op_place(d[3]["o"])
+    return False
+
+
+def switch_on_operand(b, o, local):
+    """is operand o (a copy of) local?"""
+    p = op_place(o)
+    for _ in range(4):
+        if p is None or p["p"]:
+            return False
+        if p["l"] == local:
+            return True
+        d = b.single_def(p["l"])
+        if not (d and d[2] == "rv" and d[3]["k"] == "use"):
+            return False
+        p = op_place(d[3]["o"])
+    return False
